@@ -238,12 +238,30 @@ def run_copies(ctx, out):
                 if kk == "link" and os.path.lexists(tp):
                     valid = False     # symlink() onto an existing entry fails by design
             before = xcp.snapshot(os.fsencode(d))
-            r = xcp.run_plain(argv, d, timeout=120, cpus=ncpus)
+            fault = None
+            if case["dest_state"] != "populated" and rng.random() < 0.25:
+                # "on exit 0": also when ONE call of the run failed on the way (a source that cannot be opened or read at that
+                # moment — ENOENT / EACCES / EIO —, a directory that cannot be listed, a destination entry that cannot be
+                # created): either the run fails or the destination still mirrors every selected entry
+                fault = (rng.choice(["openat", "openat", "statx", "getdents64", "mkdir", "symlink", "readlink"]), rng.choice([1, 2, 3, 5, 8]),
+                         rng.choice([2, 2, 13, 5, 20]))
+                if fault[0] == "getdents64" and fault[2] == 2:
+                    # the C library reads ENOENT from getdents as the regular end of a directory that was removed while open
+                    # (POSIX): that answer is not a failure, and the entries it hides were "not there"
+                    fault = (fault[0], fault[1], 5)
+                r = xcp.run_supervised(core.build_sup(), argv, d, d, rules=[("fail", fault[2], 0, fault[0], fault[1], d)], tag="c",
+                                       timeout_ms=120000, cpus=ncpus)
+                if not any(e.get("inj") for e in r.trace):
+                    fault = None
+                out.count("single_fault_%s" % (fault[0] if fault else "not_reached"))
+            else:
+                r = xcp.run_plain(argv, d, timeout=120, cpus=ncpus)
             after = xcp.snapshot(os.fsencode(d))
         finally:
             os.chdir("/")
         rep = dict(kind="copy", srcs=[(repr(nm), trees.describe(sp)) for nm, sp in case["srcs"]], dest_state=case["dest_state"],
-                   argv=argv, exit=r.exit, stderr=r.stderr[-400:], usable_cpus=(sorted(ncpus) if ncpus else "all"))
+                   argv=argv, exit=r.exit, stderr=r.stderr[-400:], usable_cpus=(sorted(ncpus) if ncpus else "all"),
+                   injected=(dict(call=fault[0], nth=fault[1], errno=fault[2]) if fault else None))
         nent = sum(1 for _ in exp)
         out.case(("copy", k, case["driver"], case["dest_state"], case["spelling"], tuple(case["flags"]), nent),
                  nontrivial=nent >= 3)
@@ -276,7 +294,7 @@ def run_copies(ctx, out):
                     out.violation("exit 0 but %r, which no source entry maps onto, was %s" % (
                         p, "created" if ea is None else "removed" if eb is None else "changed"), rep)
                     break
-        elif valid:
+        elif valid and not fault:
             out.corr("R1-valid-invocation-failed: the model/mapping rule expects success", rep, "exit 0", r.exit)
         out.sample(dict(kind="copy", argv=argv[1:], entries=nent, exit=r.exit), limit=8)
         shutil.rmtree(d, ignore_errors=True)
@@ -288,7 +306,8 @@ def run(ctx, out):
                 "--dereference/--no-clobber/-T: operation list, Size list, result, directories; (b) real xcp runs: 1-3 sources, "
                 "destination absent/empty/populated by a previous copy/with bystanders, spellings rel/./abs/trailing slash, -T, "
                 "--target-directory, --glob patterns selecting the same sources, both drivers, neutral options (-v, -f, --no-progress, "
-                "-w 0 = one worker per CPU) and runs confined to ONE usable CPU: whole-sandbox snapshot vs an "
+                "-w 0 = one worker per CPU), runs confined to ONE usable CPU, runs in which one call fails (ENOENT/EACCES/EIO/ENOTDIR at the "
+                "n-th open / stat / listing / mkdir / symlink / readlink): whole-sandbox snapshot vs an "
                 "independent Python statement of cp's mapping rule and a frame check; non-trivial = >=3 entries; distinct by case")
     run_walker_r0(ctx, out)
     run_copies(ctx, out)
